@@ -161,6 +161,8 @@ def normal(e):
         for a in e[2]:
             n, d = normal(a)
             keys.append(canon(n, d))
+        if e[1] in ("max", "min"):
+            keys.sort(key=repr)
         return p_sym("%s%r" % (e[1], tuple(keys))), p_const(1)
     n1, d1 = normal(e[1])
     n2, d2 = normal(e[2])
@@ -263,6 +265,9 @@ class Extract:
             d = self.reaching_def(body, pl.local, at)
             if d is not None and d[0] == "assign" and d[2].rv["k"] == "bin" and d[2].rv["op"].endswith("WithOverflow"):
                 return self.rvalue(body, d[2], depth + 1, d[1])
+        # payload of Option / Result / ControlFlow: `(x as Some).0`, `(x as Ok).0`, `(x as Continue).0` is the wrapped value
+        if len(fields) == 2 and fields[0][0] == "dc" and fields[0][1] in ("Some", "Ok", "Continue") and fields[1][0] == "f" and fields[1][1] == "0":
+            return self.local(body, pl.local, depth + 1, at)
         self._at = at
         r = self.leaf(self, body, "place", pl)
         return r if r is not None else ("u", "projection %r" % (pl,))
@@ -341,6 +346,18 @@ class Extract:
             return self.call(body, dd, depth + 1, pos)
         return self.rvalue(body, dd, depth + 1, pos)
 
+    def _conversion_body(self, tg):
+        """a crate function of one argument that only converts its argument between numeric types"""
+        if tg.kind not in ("Fn", "AssocFn") or tg.nargs != 1:
+            return False
+        for _, st in tg.stmts():
+            if st.k == "assign" and st.rv["k"] in ("bin", "un", "agg") and not (st.rv["k"] == "agg" and st.rv.get("variant") in ("Ok", "Some")):
+                return False
+        for _, t in tg.calls():
+            if t.callee.method not in TRANSPARENT_METHODS and not (t.callee.method == "branch") and not (t.callee.method in ("from_residual", "map_err", "ok_or")):
+                return False
+        return bool(list(tg.calls()))
+
     def rvalue(self, body, st, depth, at=None):
         rv = st.rv
         k = rv["k"]
@@ -376,6 +393,8 @@ class Extract:
             return F(base.lower(), a, b)
         if k == "agg" and rv.get("agg") == "tuple" and len(rv["ops"]) == 1:
             return self.operand(body, rv["ops"][0], depth, at)
+        if k == "agg" and rv.get("variant") in ("Some", "Ok", "Continue") and len(rv["ops"]) == 1:
+            return self.operand(body, rv["ops"][0], depth, at)
         return ("u", "rvalue %s" % k)
 
     def call(self, body, t, depth, at=None):
@@ -388,6 +407,8 @@ class Extract:
         A = lambda x: self.operand(body, x, depth, at)
         if c.method in FLOAT_FNS and re.search(r"\bf(32|64)\b", nm) and len(t.args) == 1:
             return F(FLOAT_FNS[c.method], A(t.args[0]))
+        if c.method in ("max", "min") and re.search(r"\bf(32|64)\b", nm) and len(t.args) == 2 and c.trait != "std::iter::Iterator":
+            return F(c.method, A(t.args[0]), A(t.args[1]))
         if c.method == "recip" and len(t.args) == 1:
             return div(C(1), A(t.args[0]))
         if c.method == "mul_add" and len(t.args) == 3:
@@ -401,6 +422,11 @@ class Extract:
         if c.trait in ("std::ops::Add", "std::ops::Sub", "std::ops::Mul", "std::ops::Div", "std::ops::Neg") and re.search(r"f32|f64", c.def_args or nm):
             a = [A(x) for x in t.args]
             return {"std::ops::Add": add, "std::ops::Sub": sub, "std::ops::Mul": mul, "std::ops::Div": div}[c.trait](*a) if c.trait != "std::ops::Neg" else ("neg", a[0])
+        tg = self.prog.bodies.get(c.res) if c.res else None
+        if tg is not None and len(t.args) == 1 and self._conversion_body(tg):
+            return A(t.args[0])
+        if c.method == "branch" and c.trait == "std::ops::Try" and len(t.args) == 1:
+            return A(t.args[0])
         if c.method in TRANSPARENT_METHODS and len(t.args) == 1 and re.search(r"\b(f32|f64|u8|u16|u32|u64|usize|i32|i64)\b", (c.def_args or "") + nm):
             return A(t.args[0])
         return ("u", "call %s" % (c.res or c.name))
